@@ -3,7 +3,9 @@ package props
 import (
 	"crypto/sha256"
 	"fmt"
+	hclog "github.com/hashicorp/go-hclog"
 	"io"
+	"simworld/goplugin/runner"
 	"sort"
 	"strings"
 	"time"
@@ -173,6 +175,8 @@ func runC17(r *h.Run) {
 	}
 	var minPort, maxPort uint
 	var sharedCmd *simexec.Cmd
+	var specSeen, specStdinOK bool
+	var specEnv []string
 	c.TweakClient = func(cc *plugin.ClientConfig) {
 		cc.SkipHostEnv = skip
 		cc.HandshakeConfig.ProtocolVersion = 0
@@ -197,6 +201,16 @@ func runC17(r *h.Run) {
 		if sharedCmd != nil && cc.Cmd != nil {
 			sharedCmd.SimName = cc.Cmd.SimName
 			cc.Cmd = sharedCmd
+		}
+		if rf := cc.RunnerFunc; rf != nil {
+			// what the custom runner is HANDED (a runner may read its specification
+			// right away - a container or sudo style launcher does)
+			cc.RunnerFunc = func(l hclog.Logger, spec *simexec.Cmd, tmpDir string) (runner.Runner, error) {
+				specSeen = true
+				specStdinOK = spec.Stdin != nil && spec.Stdin == any(simos.GetStdin())
+				specEnv = append([]string(nil), spec.Env...)
+				return rf(l, spec, tmpDir)
+			}
 		}
 	}
 	r.InstallPlugin(&c)
@@ -293,6 +307,23 @@ func runC17(r *h.Run) {
 		want("PLUGIN_UNIX_SOCKET_DIR", "", false)
 	}
 	want("UNRELATED_HOST_VAR", "from-host", !skip)
+	if specSeen {
+		if !specStdinOK {
+			r.Violate("wrong-stdin", ctx+" runner-spec", "the command specification handed to RunnerFunc does not carry the host's stdin")
+		}
+		// the specification was complete when it was handed over: what the plugin
+		// sees later is exactly that
+		have := map[string]bool{}
+		for _, kv := range specEnv {
+			have[kv] = true
+		}
+		for _, kv := range seenEnv {
+			if !have[kv] && strings.HasPrefix(kv, "PLUGIN_") {
+				r.Violate("wrong-env", ctx+" runner-spec-incomplete", fmt.Sprintf("the plugin sees %q, which was not in the specification when RunnerFunc was called", firstN(kv, 80)))
+				break
+			}
+		}
+	}
 	if seenStdin != "bytes-on-the-hosts-stdin" {
 		r.Violate("wrong-stdin", ctx, fmt.Sprintf("plugin read %q from its stdin", seenStdin))
 	}
